@@ -27,6 +27,7 @@ struct Observed {
     int ret[8]; unsigned char outb[8]; unsigned char xb[8];
     bool checked = false;
     bool leftover = false;           // expectations still registered after the test ended
+    bool disabled_has_value = false; int disabled_value = -9;
 };
 
 void run_cpp(const Scenario& s, Observed& ob, bool query_leftover) {
@@ -61,6 +62,15 @@ void run_cpp(const Scenario& s, Observed& ob, bool query_leftover) {
                 if (s.extraOut == 4) call.withOutputParameter("p", &ob.xb[c]);
                 if (s.readReturn) ob.ret[c] = call.returnIntValueOrDefault(-1);
                 ob.reached = (int)c + 1;
+            }
+            // a call made while mocking is disabled consumes no expectation: asked through the support, it has no return value
+            // (whatever the call before it returned)
+            if (s.readReturn && !s.scoped && !s.acts.empty()) {
+                mock().disable();
+                mock().actualCall(FN[0]);
+                ob.disabled_has_value = mock().hasReturnValue();
+                ob.disabled_value = mock().returnIntValueOrDefault(-9);
+                mock().enable();
             }
         },
         nullptr,
@@ -147,6 +157,7 @@ void check(const Scenario& s, const Alphabet& A) {
     std::string desc;
     auto d = [&]() { if (desc.empty()) desc = render(s); return desc; };
     // safety / at-most-once: for every scenario, ambiguous or not
+    if (ob.disabled_has_value || ob.disabled_value != -9) vf::fail("return/disabled-call-has-a-return-value", d() + vf::fmt(": a call made while mocking was disabled reports hasReturnValue=%d value=%d (default asked: -9)", ob.disabled_has_value, ob.disabled_value));
     if (ob.failures > 1) vf::fail("verdict/failed-more-than-once", d() + vf::fmt(": %zu failures recorded", ob.failures));
     if (!unamb) {
         // outside the narrow class the step-by-step reference (diagnosis, abort point, values) is not trusted; where no
